@@ -520,4 +520,210 @@ theorem sum_length_map_lt (f : List α → List α) : ∀ (L : List (List α)),
 
 end multiOp
 
+/-! ## N-stream inner join, specification side -/
+section innerSpec
+variable {α : Type} (key : α → Int)
+
+theorem filterMap_congr' {β : Type} {f g : α → Option β} : ∀ (l : List α), (∀ a ∈ l, f a = g a) →
+    l.filterMap f = l.filterMap g
+  | [], _ => rfl
+  | a :: l, h => by
+    rw [filterMap_cons, filterMap_cons, h a (by simp), filterMap_congr' l (fun a ha => h a (by simp [ha]))]
+
+theorem allSome_none_of_mem : ∀ (l : List (Option α)), none ∈ l → allSome l = none
+  | [], h => by simp at h
+  | none :: _, _ => rfl
+  | some a :: r, h => by
+    have : none ∈ r := by simpa using h
+    simp [allSome, allSome_none_of_mem r this]
+
+theorem allSome_map_some : ∀ (l : List α), allSome (l.map some) = some l
+  | [] => rfl
+  | a :: r => by simp [allSome, allSome_map_some r]
+
+theorem lookupKey_self : ∀ (l : List α), StrictInc key l → ∀ a ∈ l, lookupKey key (key a) l = some a
+  | [], _, a, ha => by simp at ha
+  | h :: t, hs, a, ha => by
+    rcases mem_cons.mp ha with rfl | ha
+    · simp [lookupKey]
+    · have hlt : key h < key a := (pairwise_cons.mp hs).1 a ha
+      have hne : (key h == key a) = false := by simp only [beq_eq_false_iff_ne]; omega
+      have := lookupKey_self t (pairwise_cons.mp hs).2 a ha
+      simpa [lookupKey, find?_cons, hne] using this
+
+theorem lookupKey_none_of_above (k : Int) (l : List α) (h : ∀ a ∈ l, k < key a) : lookupKey key k l = none := by
+  unfold lookupKey
+  rw [find?_eq_none]
+  intro a ha
+  have := h a ha
+  simp only [beq_iff_eq]; omega
+
+/-- Row of key `k`: every input's element with that key, if all inputs have one. -/
+def rowAt (k : Int) (L : List (List α)) : Option (List α) := allSome (L.map (lookupKey key k))
+
+/-- Symmetric reading of the nested-loop definition when the first input has distinct keys. -/
+theorem innerJoinN_sym (first : List α) (others : List (List α)) (hs : StrictInc key first) :
+    innerJoinN key (first :: others) = first.filterMap (fun a => rowAt key (key a) (first :: others)) := by
+  unfold innerJoinN
+  apply filterMap_congr'
+  intro a ha
+  simp [rowAt, lookupKey_self key first hs a ha, allSome]
+
+theorem innerJoinN_nil_mem (L : List (List α)) (h : [] ∈ L) : innerJoinN key L = [] := by
+  cases L with
+  | nil => rfl
+  | cons first others =>
+    rcases mem_cons.mp h with h | h
+    · subst h; rfl
+    · unfold innerJoinN
+      rw [filterMap_eq_nil_iff]
+      intro a _
+      have : none ∈ others.map (lookupKey key (key a)) :=
+        mem_map.mpr ⟨[], h, by simp [lookupKey]⟩
+      simp [allSome_none_of_mem _ this]
+
+/-- `l` without its head if the head's key is below `M`. -/
+def dropBelow (M : Int) : List α → List α
+  | a :: l => if key a < M then l else a :: l
+  | [] => []
+
+theorem strict_dropBelow (M : Int) (l : List α) (hs : StrictInc key l) : StrictInc key (dropBelow key M l) := by
+  cases l with
+  | nil => simpa [dropBelow] using hs
+  | cons h t =>
+    by_cases hk : key h < M
+    · simp only [dropBelow, hk, if_true]; exact (pairwise_cons.mp hs).2
+    · simp only [dropBelow, hk, if_false]; exact hs
+
+theorem length_dropBelow_le (M : Int) (l : List α) : (dropBelow key M l).length ≤ l.length := by
+  cases l with
+  | nil => simp [dropBelow]
+  | cons h t =>
+    by_cases hk : key h < M
+    · simp [dropBelow, hk]
+    · simp [dropBelow, hk]
+
+theorem lookupKey_dropBelow (M k : Int) (hk : M ≤ k) (l : List α) :
+    lookupKey key k (dropBelow key M l) = lookupKey key k l := by
+  cases l with
+  | nil => rfl
+  | cons h t =>
+    by_cases hh : key h < M
+    · have hne : (key h == k) = false := by simp only [beq_eq_false_iff_ne]; omega
+      simp [dropBelow, hh, lookupKey, hne]
+    · simp [dropBelow, hh]
+
+theorem dropBelow_of_above (M : Int) (l : List α) (h : ∀ a ∈ l, M ≤ key a) : dropBelow key M l = l := by
+  cases l with
+  | nil => rfl
+  | cons x t =>
+    have : ¬ key x < M := by have := h x (by simp); omega
+    simp [dropBelow, this]
+
+/-- Inner join, "advance everything behind the maximum head": dropping heads whose key is below `M` changes
+nothing as long as one input has no key below `M`. -/
+theorem innerJoinN_dropBelow (L : List (List α)) (M : Int) (hs : ∀ l ∈ L, StrictInc key l)
+    (hex : ∃ l ∈ L, ∀ a ∈ l, M ≤ key a) :
+    innerJoinN key L = innerJoinN key (L.map (dropBelow key M)) := by
+  cases L with
+  | nil => rfl
+  | cons first others =>
+    have hrow : ∀ k, rowAt key k ((first :: others).map (dropBelow key M)) = rowAt key k (first :: others) := by
+      intro k
+      by_cases hk : M ≤ k
+      · unfold rowAt
+        rw [map_map]
+        congr 1
+        apply map_congr_left
+        intro l _
+        exact lookupKey_dropBelow key M k hk l
+      · obtain ⟨lj, hlj, hall⟩ := hex
+        have hnone : lookupKey key k lj = none :=
+          lookupKey_none_of_above key k lj (fun a ha => by have := hall a ha; omega)
+        unfold rowAt
+        rw [allSome_none_of_mem _ (mem_map.mpr ⟨lj, hlj, hnone⟩),
+          allSome_none_of_mem _ (mem_map.mpr ⟨dropBelow key M lj, mem_map_of_mem hlj, by
+            rw [dropBelow_of_above key M lj hall]; exact hnone⟩)]
+    have hbelow : ∀ k, k < M → rowAt key k (first :: others) = none := by
+      intro k hk
+      obtain ⟨lj, hlj, hall⟩ := hex
+      exact allSome_none_of_mem _ (mem_map.mpr ⟨lj, hlj,
+        lookupKey_none_of_above key k lj (fun a ha => by have := hall a ha; omega)⟩)
+    rw [innerJoinN_sym key first others (hs first (by simp)), map_cons,
+      innerJoinN_sym key _ _ (strict_dropBelow key M first (hs first (by simp))), ← map_cons]
+    simp only [hrow]
+    cases first with
+    | nil => rfl
+    | cons h t =>
+      by_cases hh : key h < M
+      · simp only [dropBelow, hh, if_true, filterMap_cons, hbelow (key h) hh]
+      · simp only [dropBelow, hh, if_false]
+
+/-- Inner join, "all heads agree": the heads form the first row, the rest is the join of the tails. -/
+theorem innerJoinN_heads (L : List (List α)) (M : Int) (hne : L ≠ []) (hs : ∀ l ∈ L, StrictInc key l)
+    (hh : ∀ l ∈ L, ∃ h t, l = h :: t ∧ key h = M) :
+    innerJoinN key L = L.filterMap head? :: innerJoinN key (L.map tail) := by
+  cases L with
+  | nil => exact absurd rfl hne
+  | cons first others =>
+    obtain ⟨h, t, rfl, hk⟩ := hh first (by simp)
+    have hst : StrictInc key (h :: t) := hs _ (by simp)
+    have hheads : ∀ (L : List (List α)), (∀ l ∈ L, ∃ h t, l = h :: t ∧ key h = M) →
+        L.map (lookupKey key M) = (L.filterMap head?).map some := by
+      intro L
+      induction L with
+      | nil => intro _; rfl
+      | cons l L ih =>
+        intro hL
+        obtain ⟨h', t', rfl, hk'⟩ := hL l (by simp)
+        rw [map_cons, filterMap_cons, ih (fun l hl => hL l (mem_cons_of_mem _ hl))]
+        simp [lookupKey, hk']
+    have hL' : ((h :: t) :: others).map tail = t :: others.map tail := rfl
+    have hrow0 : rowAt key (key h) ((h :: t) :: others) = some (((h :: t) :: others).filterMap head?) := by
+      unfold rowAt
+      rw [hk, hheads _ hh, allSome_map_some]
+    rw [hL', innerJoinN_sym key (h :: t) others hst, innerJoinN_sym key t _ (pairwise_cons.mp hst).2,
+      filterMap_cons, hrow0]
+    simp only []
+    congr 1
+    apply filterMap_congr'
+    intro a ha
+    have hgt : key h < key a := (pairwise_cons.mp hst).1 a ha
+    unfold rowAt
+    rw [← hL', map_map]
+    congr 1
+    apply map_congr_left
+    intro l hl
+    obtain ⟨h', t', rfl, hk'⟩ := hh l hl
+    have hne' : (key h' == key a) = false := by simp only [beq_eq_false_iff_ne]; omega
+    simp [lookupKey, hne']
+
+end innerSpec
+
+/-! ## generic measure lemmas -/
+section measure
+variable {γ : Type} (μ : γ → Nat) (f : γ → γ)
+
+theorem sum_map_le : ∀ (L : List γ), (∀ x ∈ L, μ (f x) ≤ μ x) → ((L.map f).map μ).sum ≤ (L.map μ).sum
+  | [], _ => by simp
+  | x :: L, h => by
+    have := h x (by simp)
+    have := sum_map_le L (fun y hy => h y (mem_cons_of_mem _ hy))
+    simp only [map_cons, sum_cons]; omega
+
+theorem sum_map_lt : ∀ (L : List γ), (∀ x ∈ L, μ (f x) ≤ μ x) → (∃ x ∈ L, μ (f x) < μ x) →
+    ((L.map f).map μ).sum < (L.map μ).sum
+  | [], _, h => by obtain ⟨x, hx, _⟩ := h; simp at hx
+  | x :: L, hle, hlt => by
+    have h1 := hle x (by simp)
+    have h2 := sum_map_le μ f L (fun y hy => hle y (mem_cons_of_mem _ hy))
+    simp only [map_cons, sum_cons]
+    obtain ⟨x0, hx0, hlt0⟩ := hlt
+    rcases mem_cons.mp hx0 with rfl | hx0
+    · omega
+    · have := sum_map_lt L (fun y hy => hle y (mem_cons_of_mem _ hy)) ⟨x0, hx0, hlt0⟩
+      omega
+
+end measure
+
 end ShpanVerif.Proofs.Join
